@@ -26,6 +26,11 @@ CHECKS = {
                      "(environment setup, each cp, cmake/make or mkedanlzr/scram, the job, format conversion, sudo); exit 0 must coincide with this run's output at the destination, "
                      "a failed step with a non-zero exit and nothing fresh delivered.",
                 note="stub tools stand for the real build/run tools (their exit-status conventions are trusted); needs unshare -m (else inconclusive)", ref="4/C16"),
+    "C17": dict(cat="fault_enumeration", technique="real LocalDataset classes run in fresh interpreters against a recording stand-in python_on_whales with scripted container outcomes; audit hook on tempfile.mkdtemp",
+                text="File lists x images x docker metadata x output directories x container outcomes (success, DockerException after every k-th output chunk, missing result) are enumerated; "
+                     "the oracle reads the arguments docker.run received, filelist.txt as the container sees it through the mounts, returned paths/contents, exceptions and leftover temp dirs; "
+                     "multi-step sequences in one interpreter check that nothing leaks from one execution into the next.",
+                note="the stand-in docker client sees the host only through the requested mounts; the real docker daemon is not involved", ref="4/C17"),
 }
 
 PENDING_REASON = "check not built yet at this commit (work in progress, see DESIGN.md section 4)"
